@@ -1,6 +1,6 @@
 (* C17: statements of the property that are false of the faithful model,
    as existentials closed by the witnesses of SpecProofs.v. *)
-From V Require Import Common.Base C17.WriteSM C17.Spec C17.Proofs C17.DiskProofs C17.SpecProofs.
+From V Require Import Common.Base C17.WriteSM C17.Spec C17.Proofs C17.DiskProofs C17.SpecProofs C17.IOFail.
 From Coq Require Import String.
 
 (* before d19e8cb: a rebuild that fails removes files *)
@@ -80,4 +80,34 @@ Proof.
   split; [reflexivity|]. split.
   - vm_compute. intros p [H|[H|[]]]; [right; left | left]; exact H.
   - intro H. specialize (H (or_introl eq_refl) (P "/out/a.js")). vm_compute in H. discriminate.
+Qed.
+
+(* ---------- failures during the write phase ---------- *)
+Definition w_oc_ab := mkOutcome false [P "/src/a.js"; P "/src/b.js"] false
+  [mkOut (P "/out/a.js") [10] 110 false; mkOut (P "/out/b.js") [11] 111 false] false false false.
+Definition w_oc_b := mkOutcome false [P "/src/b.js"] false [mkOut (P "/out/b.js") [11] 111 false] false false false.
+
+(* a build in which one write fails reports errors and has created the other file *)
+Lemma write_error_build_writes_nothing_refuted_w :
+  exists opt d0 oc wf,
+    let st1 := fst (step_io phys_id true opt (init d0) oc wf) in
+    let r1 := snd (step_io phys_id true opt (init d0) oc wf) in
+    r_errors r1 = true /\ r_failed_early r1 = false /\
+    exists p, lookup d0 p = None /\ lookup (disk st1) p <> None.
+Proof.
+  exists w_opts, [(P "/src/a.js", [1]); (P "/src/b.js", [2])], w_oc_ab, [P "/out/a.js"].
+  split; [vm_compute; reflexivity|]. split; [vm_compute; reflexivity|].
+  exists (P "/out/b.js"). vm_compute. split; [reflexivity | discriminate].
+Qed.
+
+(* the path of the failed write is in the hash table: the next rebuild that
+   does not produce it deletes a path no rebuild of the context ever wrote *)
+Lemma deletes_only_own_under_write_failure_refuted_w :
+  exists opt d0 oc1 wf oc2 r1 r2,
+    trace_io phys_id true opt (init d0) [(oc1, wf); (oc2, [])] = [r1; r2] /\
+    exists p, In (EDelete p) (r_effects r2) /\ ~ In p (written_paths [r1]).
+Proof.
+  exists w_opts, [(P "/src/a.js", [1]); (P "/src/b.js", [2])], w_oc_ab, [P "/out/a.js"], w_oc_b.
+  eexists. eexists. split; [vm_compute; reflexivity|].
+  exists (P "/out/a.js"). vm_compute. split; [left; reflexivity|]. intros [H|[]]. discriminate.
 Qed.
